@@ -72,10 +72,10 @@ def generate(rng, tier):
         size = 1
         for _, s in grid:
             size *= len(as_list(s))
-        if 1 <= size <= 12:
+        if 1 <= size <= (16 if tier == "thorough" else 12):
             break
     mode = rng.randrange(8)
-    reps = rng.randint(2 if mode >= 6 else 1, 6)
+    reps = rng.randint(2 if mode >= 6 else 1, 8 if tier == "thorough" else 6)
     style = rng.choice(["small", "small", "neg", "big", "bigpos", "bigneg", "float", "mid", "mid"])
     scores = [[gen_score(rng, style) for _ in range(reps)] for _ in range(size)]
     r = rng.random()
@@ -170,8 +170,13 @@ def check_outcome(ctx, sc, combos, sigs, table, val, ledger, label):
     best, results = val
     ctx.check(len(results) == len(combos), "result-count", f"{label}: {len(results)} results for {len(combos)} combinations")
     exact = []
+    occurrence = {}
     for i, (c, r) in enumerate(zip(combos, results)):
-        spec = (table[sigs[i]] * reps)[:reps]
+        # the k-th combination with the same parameters (possible only in shrunk scenarios) continues the score table
+        k = occurrence.get(sigs[i], 0)
+        occurrence[sigs[i]] = k + 1
+        row = table[sigs[i]]
+        spec = [row[(k * reps + j) % len(row)] for j in range(reps)]
         want_rec = [to_val(v) for v in spec]
         for k, v in c.items():
             ctx.check(k in r and r[k] == v and type(r[k]) is type(v), "parameters-modified",
